@@ -123,8 +123,9 @@ def run_catalog(d, res):
 
 class PutBlock(py4hw.Logic):
     """harness leaf that drives a constant (possibly out-of-range) value through put / prepare"""
-    def __init__(self, parent, name, r, value, seq):
+    def __init__(self, parent, name, r, value, seq, twice=False):
         super().__init__(parent, name)
+        self.twice = twice
         self.r = self.addOut('r', r)
         self.value = value
         if seq:
@@ -133,6 +134,8 @@ class PutBlock(py4hw.Logic):
             self.propagate = self._propagate
 
     def _clock(self):
+        if self.twice:
+            self.r.prepare(0)          # a default that is then overridden in the same edge
         self.r.prepare(self.value)
 
     def _propagate(self):
@@ -195,6 +198,7 @@ def run_extremes(d, res):
         run('Reg.reset_value', v, lambda hw: py4hw.Reg(hw, 'r', hw.wire('d', w), hw.wire('q', w), reset=hw.wire('rst'), reset_value=v))
         run('put_in_propagate', v, lambda hw: PutBlock(hw, 'p', hw.wire('r', w), v, False))
         run('prepare_in_clock', v, lambda hw: PutBlock(hw, 'p', hw.wire('r', w), v, True))
+        run('prepare_twice_in_clock', v, lambda hw: PutBlock(hw, 'p', hw.wire('r', w), v, True, twice=True))
 
         def mem(hw):
             ra, wa, wr, rd, wd = hw.wire('ra'), hw.wire('wa'), hw.wire('wr'), hw.wire('rd', w), hw.wire('wd', w + 1)
